@@ -350,6 +350,23 @@ def run_C07(ctx):
         for attr, kind in rng.sample(sim_props.REUNIT['motor'], 3):
             spec2['ops'].insert(1, {'op': 'reunit', 'obj': 0, 'attr': attr, 'unit': rng.choice(list(SI[kind].keys()))})
         eval_meta(ctx, {'t': 'meta', 'spec': spec, 'spec2': spec2})
+    # a timed rule whose window straddles a continuation written in another time unit (the same rule / timer objects
+    # serve both runs): against the same schedule with every quantity re-expressed, and against the SI-level model
+    for _ in range(ctx.budget(12, 200)):
+        spec = gen.gen_spec(rng, random_units=True, sl_bias=0.2, optional_data=0.4)
+        dt = 2.0 ** -rng.randint(3, 5)
+        n1, n2 = rng.randint(3, 8), rng.randint(3, 8)
+        u1, u2 = rng.sample(['sec', 'ms', 'min', 'hour'], 2)
+        o1, _, _ = gen.run_op(rng, dt_si=dt, steps=(n1, n1), unit=u1)
+        o2, _, _ = gen.run_op(rng, dt_si=dt, steps=(n2, n2), unit=u2)
+        # (edges half a step away from every instant: no decision within rounding of a threshold)
+        start = dt * (rng.randint(0, n1 - 1) + 0.5)
+        end = dt * (n1 + rng.randint(1, n2 - 1) + 0.5)
+        spec['rules'] = [{'type': 'const', 'start': gen.time_qty(rng, 'Time', start, True),
+                          'dur': gen.time_qty(rng, 'TimeInterval', end - start, True),
+                          'value': rng.choice([0, -1, gen.dy(rng, -1, 1, 3)])}]
+        spec['ops'] = [o1, o2]
+        eval_meta(ctx, {'t': 'meta', 'spec': spec, 'spec2': reunit(cyc, spec)})
     # the inputs that used to fail: worm pressure angles given in every unit, continuation in another time unit
     for pa in (14.5, 20.0, 25.0, 30.0):
         for u in SI['Angle']:
